@@ -107,11 +107,7 @@ class Address:
 
     def to_cell(self) -> Cell:
         from .builder import Builder
-        return Builder()\
-            .store_bits('100')\
-            .store_int(self.wc, 8)\
-            .store_bytes(self.hash_part)\
-            .end_cell()
+        return Builder().store_address(self).end_cell()
 
     # def __str__(self):
     #     return self.to_str()
